@@ -249,14 +249,15 @@ pub fn c13<T: Px>(thorough: bool) -> Vec<CellDef> {
             }));
         }
     }
-    if n >= 12 && (n % 4 == 0 || thorough) {
+    if n >= 12 && (n % 4 == 0 || n >= 26 || thorough) {
         // forced collisions: products with a sparse tail against addends at every alignment (see deep.rs)
         let maxnf = n - 3 - es;
-        let z = if thorough { maxnf / 2 + 2 } else { maxnf * 2 / 3 + 2 };
-        let pairs = std::sync::Arc::new(crate::deep::pairs_structured(n, es, z, thorough));
+        let z = if thorough { maxnf / 2 + 2 } else if n >= 26 { maxnf * 4 / 5 + 2 } else { maxnf * 2 / 3 + 2 };
+        let rich = thorough || n >= 26;
+        let pairs = std::sync::Arc::new(crate::deep::pairs_structured(n, es, z, rich));
         let what = format!("a in [1,2) with a {maxnf}-bit fraction shape x b at every scale and shape, exact product with a sparse tail of length >= {z}");
         for kind in 0..3u8 {
-            v.push(CellDef::new("C13", format!("{}/{}#deep", T::name(), KINDS[kind as usize]), crate::deep::space(n, es, pairs.clone(), maxnf as i32 + 7, thorough, &what), move |k| {
+            v.push(CellDef::new("C13", format!("{}/{}#deep", T::name(), KINDS[kind as usize]), crate::deep::space(n, es, pairs.clone(), maxnf as i32 + 7, rich, &what), move |k| {
                 let (a, b, c) = k3(k);
                 let (want, nt) = refs::fma(n, es, kind, a, b, c);
                 let (pa, pb, pc) = (T::fb(a), T::fb(b), T::fb(c));
